@@ -342,6 +342,26 @@ func ruleC02RootProvenance(c *Ctx) {
 				ps := pathString(steps)
 				c.R.Check(ps == "Resolved.root/Schema.Schema", rule, core.FuncName(fn)+":store(Schema.Schema)", c.pos(st), "the inherited $schema is the root's ("+ps+")",
 					"a loaded document that declares no $schema inherits it from "+orNone(ps)+" instead of the root of the referring document: a subschema normally has no $schema, so a draft-07 document referenced from a non-root $ref is read as 2020-12")
+				// ... and only a document that declares none inherits: the store is guarded by "its $schema is empty"
+				onlyIfEmpty := false
+				for _, g := range guardsOf(st) {
+					bo, ok := g.Cond.(*ssa.BinOp)
+					if !ok || !((bo.Op == token.EQL && g.Pol) || (bo.Op == token.NEQ && !g.Pol)) {
+						continue
+					}
+					for _, pair := range [][2]ssa.Value{{bo.X, bo.Y}, {bo.Y, bo.X}} {
+						if k, ok := constString(pair[1]); !ok || k != "" {
+							continue
+						}
+						if ld, ok := pair[0].(*ssa.UnOp); ok && ld.Op == token.MUL {
+							if fa2, ok := ld.X.(*ssa.FieldAddr); ok && fa2.Field == fa.Field && (fa2.X == fa.X || sharesSource(fa2.X, fa.X)) {
+								onlyIfEmpty = true
+							}
+						}
+					}
+				}
+				c.R.Check(onlyIfEmpty, rule, core.FuncName(fn)+":store(Schema.Schema):only-if-empty", c.pos(st), "a loaded document inherits the root's $schema only if it declares none",
+					"the $schema of a loaded document is overwritten with the root's although the document may declare its own: a draft-07 document referenced from a 2020-12 root is read (and, the Schema being the caller's, left behind) as 2020-12, and every later or concurrent Resolve of that document sees the changed field")
 			case "Resolved.draft":
 				nStores++
 				// value: detector(arg) with arg == the value stored into Resolved.root of the same object
@@ -383,6 +403,26 @@ func ruleC02AnchorGate(c *Ctx) {
 					per["fragment $id"]++
 					c.R.Check(c.guardedByDraft(call, "draft7"), rule, core.FuncName(fn)+":fragment $id", c.pos(call), "a fragment-only $id becomes an anchor name only under draft7",
 						"a fragment-only $id is turned into an anchor name without a test that the document's draft is draft7: in 2020-12 such an $id is an error, not a reference target")
+					// ... and only when the parsed $id has a fragment (not when its text merely contains '#': "x.json#" has none)
+					byFragment := false
+					for _, g := range guardsOf(call) {
+						bo, isBin := g.Cond.(*ssa.BinOp)
+						if !isBin || !((bo.Op == token.NEQ && g.Pol) || (bo.Op == token.EQL && !g.Pol)) {
+							continue
+						}
+						for _, pair := range [][2]ssa.Value{{bo.X, bo.Y}, {bo.Y, bo.X}} {
+							if k, isK := constString(pair[1]); !isK || k != "" {
+								continue
+							}
+							if ld, isLd := pair[0].(*ssa.UnOp); isLd && ld.Op == token.MUL {
+								if fa, isFA := ld.X.(*ssa.FieldAddr); isFA && isNamed(derefType(fa.X.Type()), "net/url", "URL") && core.CanonFieldOf(fa.X.Type(), fa.Field) == "Fragment" {
+									byFragment = true
+								}
+							}
+						}
+					}
+					c.R.Check(byFragment, rule, core.FuncName(fn)+":fragment $id:parsed-fragment", c.pos(call), "a $id is an anchor only if the parsed URI has a non-empty fragment",
+						"whether a draft-07 $id names an anchor is not decided by the fragment of the parsed URI: an $id such as \"http://example.com/sub.json#\" (empty fragment) starts a new resource, but a test on the text files it as an anchor, so references inside it resolve against the wrong base")
 				}
 				return
 			}
